@@ -421,5 +421,5 @@ MANIFEST = dict(
           "Tie: the instruction list of CvoqramInitialize (aux/no aux, every backend) is compared inside Coq with CvoModel.cvo_gates together with the order premise; the emitted "
           "rotation matrices must satisfy x_j = requested amplitude, g_m = 0; Qiskit's rccx matrix is compared with the theorem's. PIVOT, with and without auxiliaries: for every circuit Q of X, CX, multi-controlled X gates and blocks 'rccx ladder ; CX from the top ancilla ; reversed ladder' (such a block permutes the basis states for EVERY ancilla content: the relative phases cancel, C06_rccx_block) and every finite superposition, a dense state carrying each amplitude at the image of its key under the reversed circuit is turned by Q into exactly the listed amplitudes on the listed basis states, ancillas in 0 (C06_pivot_cert, C06_pivot_aux_cert, C06_classical_moves_basis); tie: side conditions and the index map evaluated inside Coq on the emitted gates against the dense vector the code builds, n to 14/22. MERGE: the instruction list (X, CX, one-qubit and multi-controlled U with arbitrary matrices) is simulated symbolically inside Coq from |0..0> - basis states reached and, per basis state, the matrix entries multiplied - and this sparse simulation is proved sound for every such circuit (C06_sparse_sim, C06_sparse_sim_from_zero), n to 12/18; the products of the entries are then compared with the dictionary numerically. All full-state claims are also evaluated directly; every construction runs under a per-instance watchdog (a pivoting loop that stops terminating is reported, not waited for)."),
     note="Modelled, not verified: the multi-controlled U without auxiliaries (C04 gates / Qiskit control) as ideal; Qiskit's rccx/cu matrices (compared numerically); pivot: which pivots the loop chooses is not modelled (any choice is covered by the theorem; termination is watched at run time); merge: the choice of the strings to merge is not modelled (any instruction list is covered by the simulation theorem).",
-    technique="Coq proof (explicit-state loop invariant; flip-flop permutation semantics) + instruction-list correspondence and premise evaluation (vm_compute) + amplitude-recurrence contract + state-vector evaluation",
+    technique="Coq proof (explicit-state loop invariant; flip-flop permutation semantics; basis-permuting circuits incl. phase-cancelling rccx blocks; sound symbolic sparse simulation) + instruction-list correspondence, index-map and path certificates evaluated in Coq and premise evaluation (vm_compute) + amplitude-recurrence contract + state-vector evaluation",
     design_ref="DESIGN.md section 4, C06")
